@@ -190,6 +190,58 @@ def gen_curved(rng):
     return dict(f=f, ground=False, objs=objs, family=kind, lam=lam, seg=seg)
 
 
+# ---------------------------------------------------------------------------------------------------------
+# Objects with a history.  `main` re-uses one Mininec object for every step of a frequency sweep; a quantity
+# cached on the object, a geo object, a load or the pulse container that is not invalidated by the frequency
+# setter makes every result after the first step wrong while a freshly built object is right.  A third of the
+# generated antennas are therefore evaluated on an object that has already been through another frequency
+# (compute, and with sources also a far-field and a near-field request) — chosen by a hash of the antenna, not
+# by the PRNG stream, so that replays rebuild the same history.  The properties quantify over models, not
+# over fresh objects: whatever holds for a fresh object must hold for step k of a sweep (C14).
+WARM = dict(on=True, built=0, warmed=0)
+WARM_FACTORS = [0.5, 0.83, 1.21, 2.0]
+_WARM_CLS = {}
+
+
+def _warm_class():
+    from mininec.mininec import Mininec
+    if Mininec not in _WARM_CLS:
+        class WarmMininec(Mininec):
+            _warm_factor = None
+
+            def compute(self):
+                fac, self._warm_factor = self._warm_factor, None
+                if fac:
+                    from mininec.mininec import Angle
+                    f0 = self.f
+                    self.f = f0 * fac
+                    Mininec.compute(self)
+                    if self.sources and abs(self.power) > 0:
+                        try:
+                            self.compute_far_field(Angle(10.0, 35.0, 2), Angle(0.0, 90.0, 2))
+                            c = max(abs(x) for s in self.geo for x in list(s.p1) + list(s.p2)) + 3 * self.wavelen
+                            self.compute_near_field([c, 0.3 * c, 0.5 * c], [1.0, 1.0, 1.0], [1, 1, 1])
+                        except Exception:
+                            pass
+                    self.f = f0
+                return Mininec.compute(self)
+        _WARM_CLS[Mininec] = WarmMininec
+    return _WARM_CLS[Mininec]
+
+
+def _mk(ant, f, gs, media=None):
+    import hashlib, json
+    from mininec.mininec import Mininec
+    WARM['built'] += 1
+    h = int(hashlib.sha1(json.dumps(ant, sort_keys=True, default=str).encode()).hexdigest()[:8], 16)
+    if WARM['on'] and not ant.get('fresh') and h % 3 == 0:
+        m = _warm_class()(f, gs, media=media)
+        m._warm_factor = WARM_FACTORS[(h // 3) % len(WARM_FACTORS)]
+        WARM['warmed'] += 1
+        return m
+    return Mininec(f, gs, media=media)
+
+
 def build_objs(ant):
     from mininec.mininec import Mininec, Wire, Arc, Helix
     gs = []
@@ -203,7 +255,7 @@ def build_objs(ant):
             if o.get('segtype'):
                 w.segtype = o['segtype']
             gs.append(w)
-    return Mininec(ant['f'], gs)
+    return _mk(ant, ant['f'], gs)
 
 
 def build(ant, media=None):
@@ -213,7 +265,29 @@ def build(ant, media=None):
     ws = [Wire(w['nseg'], *w['p0'], *w['p1'], w['r']) for w in ant['wires']]
     if media is None:
         media = [ideal_ground] if ant['ground'] else None
-    return Mininec(ant['f'], ws, media=media)
+    return _mk(ant, ant['f'], ws, media=media)
+
+
+def source_pulses(rng, m, k):
+    """k distinct pulses, stratified: sources on grounded, junction and interior pulses in every registration
+    order.  With several sources and a grounded pulse present, half of the draws put a grounded pulse FIRST and
+    a non-grounded one after it (a per-source factor that leaks from one source to the next, or state kept
+    between sources, shows only in that order); a quarter put it last."""
+    N = len(m.pulses)
+    k = min(k, N)
+    ps = rng.sample(range(N), k)
+    gnd = [i for i, p in enumerate(m.pulses) if p.ground.any()]
+    if k >= 2 and gnd:
+        u = rng.random()
+        if u < 0.75:
+            g = rng.choice(gnd)
+            others = [p for p in ps if p not in gnd]
+            if not others:
+                cand = [i for i in range(N) if i not in gnd]
+                others = [rng.choice(cand)] if cand else []
+            others = [p for p in others if p != g][:k - 1]
+            ps = ([g] + others) if u < 0.5 else (others + [g])
+    return ps
 
 
 def pick_sources(rng, m, k=None):
@@ -221,7 +295,7 @@ def pick_sources(rng, m, k=None):
     from mininec.mininec import Excitation
     N = len(m.pulses)
     k = k or rng.randint(1, min(3, N))
-    ps = rng.sample(range(N), min(k, N))
+    ps = source_pulses(rng, m, min(k, N))
     res = []
     for p in ps:
         mag = 10 ** rng.uniform(-1, 1.5)
